@@ -228,8 +228,8 @@ pub fn r8_metadata_family() -> ListSpace {
 /// interning / de-duplication table or a 16-bit index; the same original name again in a second class
 pub fn far_apart_family(both: bool) -> ListSpace {
     let mut files: Vec<(Vec<Line>, Term)> = Vec::new();
-    for (fillers, with_args) in [(23000usize, true), (66000usize, false)] {
-        if !both && !with_args {
+    for (fillers, with_args) in [(23000usize, true), (66000usize, false), (750000usize, true)] {
+        if !both && (!with_args || fillers > 100000) {
             continue;
         }
         let mut f = Vec::with_capacity(fillers + 8);
@@ -245,6 +245,45 @@ pub fn far_apart_family(both: bool) -> ListSpace {
         files.push((f, Term::Lf));
     }
     ListSpace { name: "MS-H2 far-apart repeats".into(), note: "one class in which two entries of one obfuscated method share their original name with 23000 filler methods (69000 distinct strings) between them; optionally the same with 66000 fillers (more than 2^16 entries)".into(), files, wide: false, chunk: Default::default() }
+}
+
+/// MS-V late first member: k member-less class lines / comment lines / noise lines in front of the first class that
+/// has members (k around the 50-item window of `is_valid`): nothing in C01..C04 may depend on whether the file
+/// "looks valid" early
+pub fn late_member_family() -> ListSpace {
+    let mut files: Vec<(Vec<Line>, Term)> = Vec::new();
+    for k in [48usize, 49, 50, 51, 60] {
+        for kind in 0..3usize {
+            let mut f = Vec::new();
+            for i in 0..k {
+                f.push(match kind {
+                    0 => class(leak(&format!("androidx.annotation.M{}", i)), leak(&format!("m{:02}", i))),
+                    1 => Line::Header { key: "comment", value: Some("x") },
+                    _ => Line::Noise(b"garbage"),
+                });
+            }
+            f.push(class("p.A", "a"));
+            f.push(method(Some((1, 2)), Some("x.Y"), "inner", "int", Orig::SE(3, 4), "m"));
+            f.push(method(Some((1, 2)), None, "outer", "int", Orig::S(9), "m"));
+            f.push(method(None, None, "q", "", Orig::None, "n"));
+            files.push((f, Term::Lf));
+        }
+    }
+    ListSpace { name: "MS-V late first member".into(), note: "48..60 member-less class lines / header lines / noise lines before the first class with members".into(), files, wide: false, chunk: Default::default() }
+}
+
+/// MS-H3 one large multi-class mapping (about 17 MiB of text, 24000 classes of 10 methods): beyond any size at which a
+/// writer might split the work between threads or cores; strings shared between far-apart classes
+pub fn big_multiclass_family() -> ListSpace {
+    let n = 24000usize;
+    let mut f = Vec::with_capacity(n * 11);
+    for i in 0..n {
+        f.push(class(leak(&format!("com.example.generated.module{}.GeneratedClassNumber{}", i % 37, i)), leak(&format!("c{:05}", perm(n, i, 7, 3)))));
+        for j in 0..10usize {
+            f.push(method(Some((1 + j as u64, 2 + j as u64)), None, leak(&format!("methodNameNumber{}", (i + j) % 211)), "java.lang.String,int", Orig::SE(3, 4), leak(&format!("m{}", j % 4))));
+        }
+    }
+    ListSpace { name: "MS-H3 large multi-class mapping".into(), note: "one mapping of 24000 classes x 10 methods (about 17 MiB of text) with strings shared between far-apart classes".into(), files: vec![(f, Term::Lf)], wide: false, chunk: Default::default() }
 }
 
 /// one character per UTF-8 lead-byte class, all 64 continuation bytes (U+0100..U+013F = C4 80 .. C4 BF), and ASCII punctuation
